@@ -115,10 +115,67 @@ Definition names_ok (fs : fsys) (E : fpath) (ev : event) : Prop :=
        In n (map d_name (m_defs m)) \/
        exists j, In j (m_imports m) /\ In n (granted_bare fs (dir_of E) (ev_file ev) j)).
 
+(* ---- which VALUE a spelling reads (the run-time half of visibility).  Because every module's
+   globals and every importer's `q::n` bindings share one VM namespace (KF-C19-3, KF-C19-8) this is
+   exact only for names defined by one file and qualifiers that always denote one file. *)
+Definition defines (fs : fsys) (g : fpath) (n : ident) : Prop :=
+  exists mg, find_file fs g = Some mg /\ In n (map d_name (m_defs mg)).
+
+Definition name_unique (fs : fsys) (n : ident) : Prop :=
+  forall g1 g2, defines fs g1 n -> defines fs g2 n -> g1 = g2.
+
+(* q is used consistently: every import that grants the qualifier q means the same file, and if one
+   of them is a wildcard import (which binds nothing under q) all of them are *)
+Definition qual_ok (fs : fsys) (root : list ident) (q : ident) : Prop :=
+  forall f1 m1 j1 f2 m2 j2 g1 fm1 g2 fm2,
+    find_file fs f1 = Some m1 -> In j1 (m_imports m1) -> meaning fs root f1 j1 = Some (g1, fm1) ->
+    find_file fs f2 = Some m2 -> In j2 (m_imports m2) -> meaning fs root f2 j2 = Some (g2, fm2) ->
+    granted_qualifier fs root f1 j1 = Some q -> granted_qualifier fs root f2 j2 = Some q ->
+    g1 = g2 /\ (fm1 = FWildcard -> fm2 = FWildcard).
+
+(* what the documented semantics lets the top level of file f (module m) read under a spelling *)
+Definition grants_sp (fs : fsys) (root : list ident) (f : fpath) (m : module) (sp : spelling) (v : value) : Prop :=
+  match sp with
+  | SBare n =>
+      (In n (map d_name (m_defs m)) /\ v = (f, n)) \/
+      (exists j g fm, In j (m_imports m) /\ meaning fs root f j = Some (g, fm) /\
+                      In n (granted_bare fs root f j) /\ v = (g, n))
+  | SQual q n =>
+      exists j g fm mg, In j (m_imports m) /\ meaning fs root f j = Some (g, fm) /\
+        (fm = FModule /\ q = last_seg (i_path j) \/ fm = FAlias q) /\
+        find_file fs g = Some mg /\ In n (pub_names mg) /\ v = (g, n)
+  end.
+
+Definition sp_guard (fs : fsys) (root : list ident) (sp : spelling) : Prop :=
+  match sp with
+  | SBare n => name_unique fs n
+  | SQual q n => name_unique fs n /\ qual_ok fs root q
+  end.
+
+(* a top level reads exactly what it is granted *)
+Definition values_ok (fs : fsys) (E : fpath) (ev : event) : Prop :=
+  forall m, find_file fs (ev_file ev) = Some m -> no_std_imports m -> nonempty_symbols m ->
+    forall sp, sp_guard fs (dir_of E) sp ->
+      forall v, probe ev sp = Some v <-> grants_sp fs (dir_of E) (ev_file ev) m sp v.
+
+(* decidable sufficient checks for the two guards: unique_defs (above) for name_unique, and *)
+Definition qual_uses (fs : fsys) (root : list ident) : list (ident * fpath * form) :=
+  flat_map (fun fm => flat_map (fun j =>
+      match granted_qualifier fs root (fst fm) j, meaning fs root (fst fm) j with
+      | Some q, Some (g, f) => [(q, g, f)]
+      | _, _ => []
+      end) (m_imports (snd fm))) (files fs).
+Definition is_wild (f : form) : bool := match f with FWildcard => true | _ => false end.
+Definition quals_ok_b (fs : fsys) (root : list ident) : bool :=
+  forallb (fun a => forallb (fun b =>
+      negb (fst (fst a) =? fst (fst b)) ||
+      (key_eqb (snd (fst a)) (snd (fst b)) && implb (is_wild (snd a)) (is_wild (snd b))))
+    (qual_uses fs root)) (qual_uses fs root).
+
 (* ---- concrete trees used by the refutation theorems, the regression examples (trees that refuted
         the property before the repairs) and the non-vacuity example of Props/C19.v *)
 Definition imp (p : key) (f : form) : import := {| i_path := p; i_form := f |}.
-Definition D (n : ident) (b : bool) : def := {| d_name := n; d_pub := b |}.
+Definition D (n : ident) (b : bool) : def := {| d_name := n; d_pub := b; d_fn := N.even n |}.
 Definition M (is : list import) (ds : list def) : module := {| m_imports := is; m_defs := ds |}.
 Definition E9 : fpath := [9].
 
